@@ -28,30 +28,37 @@ from typing import Any, Dict, List, Optional, Sequence, Tuple
 import numpy as np
 
 from harness import gen, dense, algos
-from harness.common import CORPUS_DIR
+from harness.common import CORPUS_DIR, HarnessError
 
 RULE = ("tebd cases: random tree (1-6 nodes, physical dimensions from {1,2,3}, sometimes a node without "
         "physical leg), random TTNS with shuffled insertion-time legs, Trotter splitting of single-site "
         "and tree-adjacent two-site TensorProducts in either key order (Hermitian or not, A != B), real "
-        "factors (int, 0, negative), SWAP lists before/after between adjacent equal-dimension sites, 1-3 "
-        "steps, truncation off (vector compared) or on (bond bound); legs cases: one pair of adjacent "
-        "nodes with 0-2 further children on each side, optional grandparent, 0-2 open legs per node, both "
-        "argument orders; swap cases: every dimension 0..7 (0..12 thorough). non-trivial = distinct case "
-        "with a two-site operator whose first-named site is the child, or a non-symmetric two-site "
-        "generator, or a SWAP, or mixed dimensions, or (legs) a child-first call / several open legs")
+        "factors (int, 0, negative), SWAP lists before/after between adjacent equal-dimension sites, built "
+        "through TrotterStep or from_lists, 1-3 steps, truncation off (vector compared after every step) "
+        "or on (bond bound); legs cases: one pair of adjacent nodes with 0-2 further children on each "
+        "side, optional grandparent, 0-2 open legs per node, both argument orders (all 1944 layouts in "
+        "the thorough tier); swap cases: every dimension 0..7 (0..12 thorough). non-trivial = distinct "
+        "tebd case with a two-site operator whose first-named site is the child, or a SWAP, or mixed "
+        "dimensions with a two-site gate; legs case with child-first call, further neighbours or a number "
+        "of open legs other than 1+1; swap case with d >= 2")
 PARTIAL = [
     "value-level equality of the new state with the product of dense gates is decided per input by the "
-    "dense oracle (the Lean theorems cover the list order, the SWAP index rule and the leg bookkeeping)",
+    "dense oracle (the Lean theorems cover the list order of the operators, the SWAP index rule, the "
+    "kron/reshape digit rule and the leg bookkeeping and structure of one gate application)",
     "scipy.linalg.expm and numpy.linalg.svd are used by contract (expm validated against an own "
     "scaling-and-squaring Taylor series and, for Hermitian generators, eigh; SVD by the reproduced vector)",
     "the bond bound under truncation is decided by the oracle only (selection rule: property C10)",
-    "renaming of the pair in the neighbours' parent/children fields (replace_node_in_neighbours) is "
-    "modelled only through the tree-level `seq` function and checked by the oracle",
+    "several gates in sequence and the renaming of the pair in the neighbours' parent/children fields "
+    "(replace_node_in_neighbours) are covered by a per-gate theorem plus the exact correspondence of the "
+    "tree-level `seq` function with whole TEBD steps, not by a theorem about sequences",
+    "dimensions are not part of the model (shape checks of tensordot / reshape are exercised by the runs)",
 ]
 ASSUMPTIONS = [
     "node identifiers are distinct and none of them is the temporary identifier 'contr'",
     "every node named by an operator has exactly one physical leg (TEBD's to_tensor reshapes to one "
     "leg per named node)",
+    "int(i / d) in swap_gate (float division) equals the integer quotient (true for all indices < 2**53)",
+    "swap lists are SWAPlist instances (plain lists of pairs raise AttributeError: candidate finding F-C08a)",
 ]
 
 TOL = 1e-9
@@ -229,8 +236,9 @@ def build_tebd(case):
         mats = [_matrix(mrng, phys[s], tp["herm"]) for s in tp["sites"]]
         tp_mats.append(mats)
         tp_objs.append(TensorProduct({names[s]: m for s, m in zip(tp["sites"], mats)}))
-    before = [SWAPlist([(names[a], names[b]) for a, b in tp["before"]]) for tp in case["tps"]]
-    after = [SWAPlist([(names[a], names[b]) for a, b in tp["after"]]) for tp in case["tps"]]
+    mk = (lambda x: list(x)) if case.get("plain") else SWAPlist      # plain lists: see F-C08a
+    before = [mk([(names[a], names[b]) for a, b in tp["before"]]) for tp in case["tps"]]
+    after = [mk([(names[a], names[b]) for a, b in tp["after"]]) for tp in case["tps"]]
     if case["via"] == "from_lists":
         trotter = TrotterSplitting.from_lists(tp_objs, splitting=[tuple(s) for s in case["splitting"]],
                                               swaps_before=before, swaps_after=after)
@@ -241,7 +249,6 @@ def build_tebd(case):
     uid = 0
     for pos, (i, f) in enumerate(case["splitting"]):
         tp = case["tps"][i]
-        step = {"before": [], "after": []}
         for a, b in tp["before"]:
             expected.append({"kind": "swap", "sites": [names[a], names[b]], "d": phys[a], "uid": uid, "slot": (pos, "b")})
             uid += 1
@@ -277,7 +284,6 @@ def tebd_model_lines(case, expected, ttns, names) -> List[str]:
     1..steps repetitions of the expected two-site sequence."""
     # splitting: steps encoded as before:gate:after with operator uids
     toks = []
-    cur = None
     steps_enc: List[List[List[int]]] = []
     for e in expected:
         pos, slot = e["slot"]
@@ -345,6 +351,9 @@ def _case_tebd(ctx, case, model_out: Optional[List[str]] = None):
         try:
             algo = algos.make_algo("tebd", ttns, None, dt, steps * dt, [], svd=svd or NOTRUNC, trotter=trotter)
         except Exception as e:                  # noqa: BLE001
+            if case.get("plain") and isinstance(e, AttributeError) and "into_operators" in str(e):
+                _report_plain(ctx, case, e)
+                return
             ctx.oracle_fail(case, f"TEBD construction raised {type(e).__name__}: {str(e)[:200]}")
             return
 
@@ -437,6 +446,25 @@ def _case_tebd(ctx, case, model_out: Optional[List[str]] = None):
             ctx.oracle_fail(case, "the initial state object handed to TEBD was modified")
 
 
+FINDING_PLAIN = "F-C08a"
+
+
+def _report_plain(ctx, case, exc):
+    """Swap lists handed over as plain lists of pairs (allowed by the signature of TrotterStep and used
+    by tests/test_trotter.py) make exponentiate_splitting raise AttributeError.  Reported under the
+    finding id only when the coordinator has recorded it; otherwise noted in the evidence."""
+    from harness.common import load_known_findings
+    known = load_known_findings("C08")
+    detail = (f"swap lists given as plain lists of pairs: TEBD construction raised "
+              f"{type(exc).__name__}: {str(exc)[:120]}")
+    ctx.tally("plain_list_swaps", "AttributeError")
+    if FINDING_PLAIN in known:
+        status = known[FINDING_PLAIN].get("status")
+        ctx.oracle_fail(case, detail, finding=FINDING_PLAIN if status == "open" else None)
+    else:
+        ctx.notes["candidate_finding_F-C08a"] = detail + " (not listed in known_findings.json: noted only)"
+
+
 def _uid_classes(expected) -> Dict[int, int]:
     """Operators that are equal as (sites, value) are interchangeable: map uid -> smallest equal uid."""
     cls: Dict[int, int] = {}
@@ -474,9 +502,12 @@ def _classify(exps, expected, dims, order) -> Optional[List[Any]]:
 
 # ===================================================================== legs cases (TTN level)
 
+OPEN_COMBOS = [(1, 1), (2, 1), (1, 2), (0, 1), (1, 0), (2, 2), (0, 2), (2, 0), (0, 0)]
+
+
 def gen_legs_case(rng: random.Random) -> Dict[str, Any]:
     a, b, k = rng.choice([0, 0, 1, 2]), rng.choice([0, 0, 1, 2]), rng.choice([0, 1, 1, 2])
-    op_, oc = rng.choice([(1, 1), (1, 1), (1, 1), (2, 1), (1, 2), (0, 1), (1, 0), (2, 2), (0, 2), (2, 0), (0, 0)])
+    op_, oc = rng.choice([(1, 1), (1, 1)] + OPEN_COMBOS)
     return {"kind": "legs", "orient": rng.choice(["p", "c"]), "hp": rng.random() < 0.6, "a": a, "b": b,
             "k": k, "oP": op_, "oC": oc, "distinct": rng.random() < 0.5, "seed": rng.randrange(10 ** 9)}
 
@@ -519,8 +550,8 @@ def build_legs(case):
     open_dims = {i: [2] for i in range(n)}
     open_dims[P] = od[:case["oP"]]
     open_dims[C] = od[case["oP"]:case["oP"] + case["oC"]]
-    ttn, canon, att, _ = gen.build_network(TreeTensorNetworkState, par, bond, open_dims, rng, nprng,
-                                           names=names, order=order)
+    ttn, _canon, _att, _ = gen.build_network(TreeTensorNetworkState, par, bond, open_dims, rng, nprng,
+                                             names=names, order=order)
     return ttn, {"P": P, "C": C, "A": A, "B": B, "K": K, "par": par, "num": num, "names": names,
                  "bond": bond, "open": open_dims}
 
@@ -600,6 +631,7 @@ def _case_legs(ctx, case, model_out: Optional[str] = None):
         return [names[back[int(x)]] for x in xs]
 
     v_before, labels_before = dense.ttn_dense(ttn)
+    struct_before = dense.structure(ttn)
     probs: List[str] = []
     # the gate: one leg pair per physical leg, in the order (legs of the first-named node, legs of the second)
     odims = list(info["open"][n1]) + list(info["open"][n2])
@@ -661,6 +693,9 @@ def _case_legs(ctx, case, model_out: Optional[str] = None):
     if wf:
         ctx.oracle_fail(case, f"network not well formed after contract/absorb/split: {wf[:2]}")
         return
+    if dense.structure(ttn) != struct_before:
+        ctx.oracle_fail(case, f"identifiers / parent-child relations changed: {dense.structure(ttn)} != {struct_before}")
+        return
     v_after, labels_after = dense.ttn_dense(ttn)
     if labels_after != labels_before:
         ctx.oracle_fail(case, f"open legs changed: {labels_before} -> {labels_after}")
@@ -670,6 +705,28 @@ def _case_legs(ctx, case, model_out: Optional[str] = None):
     ref = np.tensordot(gate, v_before, axes=(list(range(nopen, 2 * nopen)), axes)) if nopen else gate * v_before
     # outputs come first now: move them back to the places of the physical legs
     ref = np.moveaxis(ref, list(range(nopen)), axes) if nopen else ref
+    # correspondence of the model's binding and output placement: evaluate what the model says
+    try:
+        in_axes: Dict[int, int] = {}
+        for pair in _lst(model["bind"][0]):
+            lab, _, inp = pair.partition("~")
+            nd_s, _, j = lab[1:].partition(".")
+            in_axes[int(inp[1:])] = labels_before.index(("o", "", names[back[int(nd_s)]], int(j)))
+        out_axes: Dict[int, int] = {}
+        for tag, nd in (("n1", n1), ("n2", n2)):
+            outs = [lb for lb in _lst(model[tag][2]) if lb[0] == "g"]
+            for j, lb in enumerate(outs):
+                out_axes[int(lb[1:])] = labels_before.index(("o", "", names[nd], j))
+        if sorted(in_axes) != list(range(nopen)) or sorted(out_axes) != list(range(nopen)):
+            raise ValueError("binding does not cover the gate legs")
+        mref = np.tensordot(gate, v_before, axes=(list(range(nopen, 2 * nopen)),
+                                                  [in_axes[k] for k in range(nopen)])) if nopen else gate * v_before
+        mref = np.moveaxis(mref, list(range(nopen)), [out_axes[k] for k in range(nopen)]) if nopen else mref
+        if not np.linalg.norm(mref - v_after) <= TOL * max(1.0, np.linalg.norm(mref)):
+            ctx.corr_fail(case, f"the model's binding {model['bind'][0]} / output placement does not reproduce the "
+                                f"implementation's tensor (|diff| = {np.linalg.norm(mref - v_after):.3g})")
+    except (ValueError, KeyError, IndexError) as ex:
+        ctx.corr_fail(case, f"model binding unreadable: {model.get('bind')} ({ex})")
     err = np.linalg.norm(ref - v_after)
     if not err <= TOL * max(1.0, np.linalg.norm(ref)):
         bind = model.get("bind", ["?"])[0]
@@ -720,17 +777,45 @@ def _case_swap(ctx, case, model_out: Optional[str] = None):
 
 # ===================================================================== driver
 
+def all_legs_cases(rng: random.Random) -> List[Dict[str, Any]]:
+    """The whole parameter space of the legs cases (1944 layouts), one tensor seed each."""
+    out = []
+    for orient in ("p", "c"):
+        for hp in (False, True):
+            for a in range(3):
+                for b in range(3):
+                    for k in range(3):
+                        for op_, oc in OPEN_COMBOS:
+                            for distinct in (False, True):
+                                out.append({"kind": "legs", "orient": orient, "hp": hp, "a": a, "b": b, "k": k,
+                                            "oP": op_, "oC": oc, "distinct": distinct,
+                                            "seed": rng.randrange(10 ** 9)})
+    return out
+
+
 def gen_cases(ctx) -> List[Dict[str, Any]]:
     rng = ctx.rng
     cases: List[Dict[str, Any]] = []
     for d in range(0, ctx.n(8, 13) if ctx.scale == 1 else 16):
         cases.append({"kind": "swap", "d": d})
-    for _ in range(ctx.n(150, 1500)):
-        cases.append(gen_legs_case(rng))
-    for _ in range(ctx.n(110, 1400)):
+    if ctx.tier == "thorough" or ctx.scale > 1:
+        cases.extend(all_legs_cases(rng))
+        ctx.notes["legs_space_exhaustive"] = True
+    else:
+        for _ in range(ctx.n(1000, 0)):
+            cases.append(gen_legs_case(rng))
+    for _ in range(ctx.n(2500, 30000)):
         cases.append(gen_tebd_case(rng, trunc=False))
-    for _ in range(ctx.n(30, 400)):
+    for _ in range(ctx.n(500, 6000)):
         cases.append(gen_tebd_case(rng, trunc=True))
+    # probe: swap lists as plain Python lists (see _report_plain)
+    probes = 0
+    while probes < 3:
+        c = gen_tebd_case(rng, trunc=False)
+        if any(tp["before"] or tp["after"] for tp in c["tps"]):
+            c["plain"] = True
+            cases.append(c)
+            probes += 1
     return cases
 
 
@@ -763,6 +848,11 @@ def run(ctx):
         spans.append((len(lines), len(lines) + len(ls)))
         lines.extend(ls)
     outs = ctx.lean.batch(lines)
+    bad = ["C08 swap", "C08 swap x", "C08 splitting 1:2", "C08 splitting a:1:", "C08 twosite q 1 2 - 2 - 1 1",
+           "C08 twosite p 1 2 - 2 -", "C08 seq 0:-:1 1:0:-", "C08 seq 0:-:1 / 0+1", "C08 frobnicate"]
+    answers = ctx.lean.batch(bad)
+    if any(a != "bad-op" for a in answers):
+        raise HarnessError(f"model driver accepts malformed requests: {list(zip(bad, answers))}")
     for c, (lo, hi) in zip(cases, spans):
         if ctx.time_left() < 0:
             break
